@@ -26,7 +26,7 @@ K_TIGHT = {'TIGHT', 'FULL_FOOTPRINT', 'FOOTPRINT'}
 K_LIFE = {'CTOR_OVERLAPS_LIVE', 'CTOR_OUTSIDE_BLOCK', 'CTOR_FROM_DEAD', 'DTOR_OF_DEAD', 'ASSIGN_TO_DEAD',
           'ASSIGN_FROM_DEAD', 'LIVE_OBJECTS', 'OBJECTS_NEVER_DESTROYED', 'RELOCATION_KIND'}
 K_LEDGER = {'FREE_UNKNOWN_OR_TWICE', 'FREE_WRONG_SIZE', 'FREE_THROUGH_UNEQUAL_ALLOCATOR', 'LEAK',
-            'DATA_NOT_IN_LIVE_BLOCK'}
+            'DATA_NOT_IN_LIVE_BLOCK', 'BLOCK_FROM_UNEQUAL_ALLOCATOR'}
 K_ALLOC = {'GET_ALLOCATOR', 'BLOCK_FROM_UNEQUAL_ALLOCATOR', 'FREE_THROUGH_UNEQUAL_ALLOCATOR', 'ELEMENTWISE_MOVE'}
 K_VALUE = K_SEQ | {'BYSTANDER_CHANGED', 'LOGGED_PARAMETER'}
 K_STABLE = {'ALLOCATOR_USED', 'BLOCK_CHANGED', 'CAPACITY_CHANGED', 'ADDRESS_MOVED', 'BLOCK_NOT_TRANSFERRED'}
@@ -66,6 +66,29 @@ def u(scen, cfgs, aks=('AE',), builds=('asan',)):
     return [(scen, c, ak, b) for c in cfgs for ak in aks for b in builds]
 
 
+def ul(tier):
+    """units of the layout universe (spec/GenLayout.tla): a fixed, seed-independent selection per tier"""
+    def units():
+        sel = {'quick': [('pairs', 48, 5), ('triples', 600, 7), ('pairs2', 160, 3)],
+               'thorough': [('pairs', 1, 0), ('pairs2', 2, 0), ('triples', 20, 3)]}[tier]
+        out = []
+        for name, stride, off in sel:
+            for d in vlib.gen_universe(name)['lists'][off::stride]:
+                out.append(('SU', vlib.cfg_of_list(d), 'AE', 'asan0'))
+        return out
+    return units
+
+
+class Units(list):
+    """static units plus lazily enumerated universe units"""
+    def __init__(self, static, lazy=None):
+        super().__init__(static)
+        self.lazy = lazy
+
+    def all(self):
+        return list(self) + (self.lazy() if self.lazy else [])
+
+
 # property -> units per tier, judgement kinds routed to it, crash routing, extra filter
 PROPS = {
     'C01': {'level': 'model_checking',
@@ -74,24 +97,26 @@ PROPS = {
             'technique': 'TLA+ model (Cntgs.tla) explored by TLC; transition-cover histories replayed on the real '
                          'templates; every step of the recorded trace judged by Trace.tla (sequence semantics)'},
     'C02': {'level': 'model_checking',
-            'units': {'quick': u('S1', ALL) + u('SF', VARYING), 'thorough': u('S1', ALL, ('AE', 'NP')) + u('SF', VARYING)},
+            'units': {'quick': Units(u('S1', ALL) + u('SF', VARYING), ul('quick')),
+                      'thorough': Units(u('S1', ALL, ('AE', 'NP')) + u('SF', VARYING), ul('thorough'))},
             'kinds': K_MEM, 'crash': crash_mem, 'filter': None,
             'technique': 'TLC-enumerated histories and payload distributions replayed under ASan with poisoned '
                          'redzones; observed addresses judged against block bounds by Trace.tla/Layout.tla'},
     'C03': {'level': 'model_checking',
-            'units': {'quick': u('S1', ALIGNED) + u('SF', ['V_TA', 'M_NA', 'VV_T']),
-                      'thorough': u('S1', ALIGNED, ('AE', 'NP')) + u('SF', ['V_TA', 'M_NA', 'VV_T'])},
+            'units': {'quick': Units(u('S1', ALIGNED) + u('SF', ['V_TA', 'M_NA', 'VV_T']), ul('quick')),
+                      'thorough': Units(u('S1', ALIGNED, ('AE', 'NP')) + u('SF', ['V_TA', 'M_NA', 'VV_T']), ul('thorough'))},
             'kinds': K_ALIGN, 'crash': crash_assert, 'filter': None,
             'technique': 'observed numeric addresses of AlignAs objects judged by Layout!ElemsAligned in every '
                          'recorded state; blocks based at odd multiples of the storage alignment'},
     'C04': {'level': 'model_checking',
-            'units': {'quick': u('S1', ALL) + u('SF', VARYING), 'thorough': u('S1', ALL, ('AE', 'NP')) + u('SF', VARYING)},
+            'units': {'quick': Units(u('S1', ALL) + u('SF', VARYING), ul('quick')),
+                      'thorough': Units(u('S1', ALL, ('AE', 'NP')) + u('SF', VARYING), ul('thorough'))},
             'kinds': K_ORDER, 'crash': never, 'filter': None,
             'technique': 'observed field/element ranges judged by Layout!ElemsInOrder (order, containment, '
                          'disjointness, span counts, iterator.data) in every recorded state'},
     'C05': {'level': 'model_checking',
-            'units': {'quick': u('S1', ALL) + u('SF', VARYING) + u('S2', ALL, ('NP',)),
-                      'thorough': u('S1', ALL, ('AE', 'NP')) + u('SF', VARYING) + u('S2', ALL, ('NP', 'AE', 'PR'))},
+            'units': {'quick': Units(u('S1', ALL) + u('SF', VARYING) + u('S2', ALL, ('NP',)), ul('quick')),
+                      'thorough': Units(u('S1', ALL, ('AE', 'NP')) + u('SF', VARYING) + u('S2', ALL, ('NP', 'AE', 'PR')), ul('thorough'))},
             'kinds': K_TIGHT, 'crash': never, 'filter': None,
             'technique': 'observed offsets compared with the greedy layout of Layout.tla; footprint judged against '
                          'the observed footprint of a fresh vector'},
@@ -209,13 +234,15 @@ def active_findings(cfgs, akinds, seed, pool):
 # ------------------------------------------------------------------------------------------------- running
 def run_units(units, tier, seed, cfgs, akinds, findings):
     tlcpool = ThreadPoolExecutor(vlib.NCPU)
-    upool = ThreadPoolExecutor(6)
+    upool = ThreadPoolExecutor(12)
     futs = []
     for scen, c, ak, build in units:
-        cuts = sorted({f['scope']['cut'] for f in findings if f['scope'].get('cut') and cfg_matches(cfgs[c], f['scope'], akinds[ak])
+        cfg = cfgs[c] if isinstance(c, str) else c
+        cuts = sorted({f['scope']['cut'] for f in findings if f['scope'].get('cut') and cfg_matches(cfg, f['scope'], akinds[ak])
                        and (not f['scope'].get('scenarios') or scen in f['scope']['scenarios'])})
-        futs.append(((scen, c, ak, build, cuts),
-                     upool.submit(vlib.run_unit, cfgs[c], ak, akinds[ak], scen, tier, seed, tlcpool, build, -1, cuts)))
+        name = c if isinstance(c, str) else vlib.describe_list(c)
+        futs.append(((scen, name, ak, build, cuts),
+                     upool.submit(vlib.run_unit, cfg, ak, akinds[ak], scen, tier, seed, tlcpool, build, -1, cuts)))
     results = []
     for key, f in futs:
         results.append((key, f.result()))
@@ -239,7 +266,8 @@ def relevant(pid, v, unit):
 def write_replay(pid, key, r, v):
     os.makedirs(os.path.join(OUT, 'replay'), exist_ok=True)
     scen, c, ak, build, cuts = key
-    path = os.path.join(OUT, 'replay', '%s_%s_%s_%s_h%d.json' % (pid, scen, c, ak, v['h']))
+    cid = c if len(c) < 12 else 'U' + vlib.sha(c)[:10]
+    path = os.path.join(OUT, 'replay', '%s_%s_%s_%s_h%d.json' % (pid, scen, cid, ak, v['h']))
     json.dump({'property': pid, 'scenario': scen, 'config': c, 'alloc_kind': ak, 'build': build, 'seed': r['seed'],
                'history': v['ops'], 'first_divergence': {'step': v['s'], 'op': v['n'], 'kinds': v['kinds'],
                                                          'crash': v.get('crashmsg', '')}},
@@ -254,6 +282,7 @@ def run_property(pid, tier, seed):
     pool0 = ThreadPoolExecutor(4)
     findings = active_findings(cfgs, akinds, seed, pool0)
     units = prop['units'][tier]
+    units = units.all() if isinstance(units, Units) else units
     results = run_units(units, tier, seed, cfgs, akinds, findings)
     violations = []
     infra = []
